@@ -18,8 +18,8 @@ theorem tie_cell_to_parent (index : Nat) (pr : Option Int) :
 
 theorem tie_get_res0_cells : Src.serialization.get_res0_cells = getRes0Cells.map (List.map Int.ofNat) := by
   unfold Src.serialization.get_res0_cells getRes0Cells
-  have h : Src.serialization.WORLD_CELL = ((A5.WORLD_CELL : Nat) : Int) := by decide
-  rw [h]; exact cell_to_children_eq _ _
+  have h : (0 : Int) = ((A5.WORLD_CELL : Nat) : Int) := by decide
+  exact h ▸ cell_to_children_eq A5.WORLD_CELL (some 0)
 
 theorem tie_get_num_children (p c : Int) :
     Src.cell_info.get_num_children p c = .ok ((getNumChildren p c : Nat) : Int) := get_num_children_eq p c
